@@ -85,8 +85,12 @@ def write_ast(rng, phi, period_ns, default, halfstep=None):
         if q["op"] in TIMED:
             a_ns, b_ns = q["a"] * period_ns, q["b"] * period_ns
             if halfstep == k:
-                # a bound that is not a whole number of periods: the end, or (if there is room) the begin only
-                if q["a"] < q["b"] and rng.random() < 0.5:
+                # a bound that is not a whole number of periods: the end, the begin only (if there is room), or both by the same
+                # half period (their difference - all that is left of them after pastification - is then a whole number)
+                r_ = rng.random()
+                if r_ < 0.35:
+                    a_ns += period_ns // 2; b_ns += period_ns // 2
+                elif q["a"] < q["b"] and r_ < 0.65:
                     a_ns += period_ns // 2
                 else:
                     b_ns += period_ns // 2
